@@ -11,11 +11,17 @@
 (* number of short reads), then exactly `size` payload units, appends them   *)
 (* to partial[session]; on final it delivers partial[session] and clears it. *)
 (*                                                                          *)
-(* The content of messages is abstract: Empty / Unit(s,m,k) / Cat(a,b) are   *)
-(* parameters, instantiated with sequences for model checking and with       *)
-(* composable digests (length + polynomial hashes) for trace validation, so  *)
-(* the frame-level operators below are shared by both.                       *)
-EXTENDS Naturals, Sequences, FiniteSets, TLC
+(* The reader is a sequential function of the byte stream and the writers do *)
+(* not depend on the reader, so it loses no behaviour to let a frame be      *)
+(* written only when the previous one has been consumed (wire = <<>>): every *)
+(* order of frames and every cutting of the stream into reads is still       *)
+(* explored.  (With the deviation DevSplitWrite the wire may hold more.)     *)
+(*                                                                          *)
+(* Message content is abstract: the frame-level operator RecvFrame (module   *)
+(* MuxFrames) takes the concatenation as a parameter; it is instantiated     *)
+(* with sequences of tagged units here and with composable digests (length + *)
+(* polynomial hashes) in the trace specification (spec/trace/TraceMux.tla).  *)
+EXTENDS Naturals, Sequences, FiniteSets, TLC, MuxFrames
 
 CONSTANTS
     Sessions,       \* session ids
@@ -26,43 +32,39 @@ CONSTANTS
     HdrCells,       \* wire cells per header (short reads can split a header)
     DevSplitWrite,  \* deviation (not the code): header and payload written in two
                     \* critical sections (no wlock around both)
-    DevShortRead    \* deviation (not the code): reader uses one Read instead of
+    DevShortRead,   \* deviation (not the code): reader uses one Read instead of
                     \* ReadFull for the payload
+    DevLoseFinal    \* deviation (not the code): a final frame that carries MaxUnits
+                    \* payload units is written with final = FALSE (buffer-full boundary)
 
-----------------------------------------------------------------------------
-(* Frame level, shared with the trace specification *)
-
-\* sequences as message content (model checking instantiation)
 SeqCat(a, b) == a \o b
-
-\* reader: effect of one complete frame fr = [s, data, final] on partial; returns
-\* [partial |-> new partial, out |-> <<>> or <<message>>]
-RecvFrame(partial, fr, Cat(_, _), Empty) ==
-    LET acc == Cat(partial[fr.s], fr.data) IN
-    IF fr.final
-    THEN [partial |-> [partial EXCEPT ![fr.s] = Empty], out |-> <<acc>>]
-    ELSE [partial |-> [partial EXCEPT ![fr.s] = acc], out |-> <<>>]
 
 ----------------------------------------------------------------------------
 VARIABLES
     nsent,      \* nsent[s]: messages session s has started
-    cur,        \* cur[s]: [rest |-> units still to send, nfr |-> frames written] or NoCur
-    hdrOnly,    \* DevSplitWrite only: header [s, size, final] written, its payload still pending (or NoHdr)
-    wire,       \* cells written and not yet read; header cells <<"H", s, size, final, i>>,
+    cur,        \* cur[s]: [rest |-> units still to send, nfr |-> frames written, active]
+    hdrOnly,    \* DevSplitWrite only: header [s, size, final] written, its payload still pending
+    wire,       \* cells written and not yet read: header cells <<"H", s, size, final>>,
                 \* payload cells <<"D", unit>>
     rd,         \* reader: [phase |-> "hdr"|"body", need |-> cells to read, got |-> cells read, hdr |-> header]
     partial,    \* partial[s]: payload units accumulated for s
-    sent,       \* history: sent[s] = messages started by s, in order
-    delivered   \* history: delivered[s] = messages delivered to s, in order
+    ndeliv,     \* ndeliv[s]: messages delivered to s
+    bad         \* history: some delivered message was not the next message sent to that session
 
-vars == <<nsent, cur, hdrOnly, wire, rd, partial, sent, delivered>>
+vars == <<nsent, cur, hdrOnly, wire, rd, partial, ndeliv, bad>>
 
 NoCur == [rest |-> <<>>, nfr |-> 0, active |-> FALSE]
 NoSess == "none"
 NoHdr == [s |-> NoSess, size |-> 0, final |-> FALSE]
 
-Unit(s, m, k) == <<s, m, k>>
-Message(s, m, n) == [k \in 1..n |-> Unit(s, m, k)]
+\* unit k of the m-th message of session s, which has n units in total
+Unit(s, m, k, n) == <<s, m, k, n>>
+Message(s, m, n) == [k \in 1..n |-> Unit(s, m, k, n)]
+
+\* msg is exactly the m-th message of s (any length; all units present, in order)
+IsMessage(msg, s, m) ==
+    \/ msg = <<>>
+    \/ msg = Message(s, m, msg[1][4])
 
 Init ==
     /\ nsent = [s \in Sessions |-> 0]
@@ -71,69 +73,74 @@ Init ==
     /\ wire = <<>>
     /\ rd = [phase |-> "hdr", need |-> HdrCells, got |-> <<>>, hdr |-> NoHdr]
     /\ partial = [s \in Sessions |-> <<>>]
-    /\ sent = [s \in Sessions |-> <<>>]
-    /\ delivered = [s \in Sessions |-> <<>>]
+    /\ ndeliv = [s \in Sessions |-> 0]
+    /\ bad = FALSE
 
-\* a session starts its next message (PutCmd ... ): n units of content
+\* a session starts its next message: n units of content
 Start(s, n) ==
     /\ ~cur[s].active /\ nsent[s] < MaxMsgs
     /\ nsent' = [nsent EXCEPT ![s] = @ + 1]
     /\ cur' = [cur EXCEPT ![s] = [rest |-> Message(s, nsent[s] + 1, n), nfr |-> 0, active |-> TRUE]]
-    /\ sent' = [sent EXCEPT ![s] = Append(@, Message(s, nsent[s] + 1, n))]
-    /\ UNCHANGED <<hdrOnly, wire, rd, partial, delivered>>
+    /\ UNCHANGED <<hdrOnly, wire, rd, partial, ndeliv, bad>>
 
-HdrSeq(s, size, final) == [i \in 1..HdrCells |-> <<"H", s, size, final, i>>]
+HdrSeq(s, size, final) == [i \in 1..HdrCells |-> <<"H", s, size, final>>]
 DataSeq(us) == [i \in 1..Len(us) |-> <<"D", us[i]>>]
 
-\* conn.write under wlock: one frame with the next j units; final only with all the rest
-WriteFrame(s, j, final) ==
+FrameOK(s, j, final) ==
     /\ cur[s].active
-    /\ hdrOnly = NoHdr
     /\ j <= Len(cur[s].rest)
     /\ final => j = Len(cur[s].rest)
     /\ ~final => cur[s].nfr < MaxFrags - 1         \* the last allowed frame must be final
-    /\ LET us == SubSeq(cur[s].rest, 1, j) IN
-        IF DevSplitWrite
-        THEN /\ wire' = wire \o HdrSeq(s, j, final)
-             /\ hdrOnly' = [s |-> s, size |-> j, final |-> final]
-             /\ cur' = [cur EXCEPT ![s].nfr = @ + 1]      \* payload follows in WritePayload
-        ELSE /\ wire' = wire \o HdrSeq(s, j, final) \o DataSeq(us)
-             /\ hdrOnly' = NoHdr
-             /\ cur' = IF final THEN [cur EXCEPT ![s] = NoCur]
-                        ELSE [cur EXCEPT ![s] = [rest |-> SubSeq(@.rest, j + 1, Len(@.rest)),
-                                                 nfr |-> @.nfr + 1, active |-> TRUE]]
-    /\ UNCHANGED <<nsent, rd, partial, sent, delivered>>
+
+Advance(s, j, final) ==
+    IF final THEN [cur EXCEPT ![s] = NoCur]
+    ELSE [cur EXCEPT ![s] = [rest |-> SubSeq(@.rest, j + 1, Len(@.rest)), nfr |-> @.nfr + 1, active |-> TRUE]]
+
+\* the final flag as written on the wire
+WireFinal(j, final) == IF DevLoseFinal /\ final /\ j = MaxUnits THEN FALSE ELSE final
+
+\* conn.write under wlock: one frame with the next j units
+WriteFrame(s, j, final) ==
+    /\ FrameOK(s, j, final)
+    /\ hdrOnly = NoHdr
+    /\ wire = <<>> /\ rd.phase = "hdr" /\ rd.got = <<>>       \* see module comment
+    /\ IF DevSplitWrite
+       THEN /\ wire' = wire \o HdrSeq(s, j, final)
+            /\ hdrOnly' = [s |-> s, size |-> j, final |-> final]
+            /\ cur' = cur                                      \* payload follows in WritePayload
+       ELSE /\ wire' = wire \o HdrSeq(s, j, WireFinal(j, final)) \o DataSeq(SubSeq(cur[s].rest, 1, j))
+            /\ hdrOnly' = NoHdr
+            /\ cur' = Advance(s, j, final)
+    /\ UNCHANGED <<nsent, rd, partial, ndeliv, bad>>
 
 \* only with DevSplitWrite: the payload of the frame whose header was written before
-\* (other sessions' frames may have been written in between)
 WritePayload(s) ==
     /\ DevSplitWrite /\ hdrOnly.s = s
-    /\ LET h == hdrOnly
-           us == SubSeq(cur[s].rest, 1, h.size) IN
-        /\ wire' = wire \o DataSeq(us)
-        /\ cur' = IF h.final THEN [cur EXCEPT ![s] = NoCur]
-                   ELSE [cur EXCEPT ![s].rest = SubSeq(@, h.size + 1, Len(@))]
+    /\ wire' = wire \o DataSeq(SubSeq(cur[s].rest, 1, hdrOnly.size))
+    /\ cur' = Advance(s, hdrOnly.size, hdrOnly.final)
     /\ hdrOnly' = NoHdr
-    /\ UNCHANGED <<nsent, rd, partial, sent, delivered>>
+    /\ UNCHANGED <<nsent, rd, partial, ndeliv, bad>>
 
-\* with DevSplitWrite another session may write between header and payload
-WriteHdrOther(s, j, final) ==
+\* only with DevSplitWrite: another session writes a whole frame between the two
+WriteBetween(s, j, final) ==
     /\ DevSplitWrite /\ hdrOnly # NoHdr /\ hdrOnly.s # s
-    /\ cur[s].active /\ j <= Len(cur[s].rest) /\ (final => j = Len(cur[s].rest))
-    /\ (~final => cur[s].nfr < MaxFrags - 1)
+    /\ FrameOK(s, j, final)
     /\ wire' = wire \o HdrSeq(s, j, final) \o DataSeq(SubSeq(cur[s].rest, 1, j))
-    /\ cur' = IF final THEN [cur EXCEPT ![s] = NoCur]
-               ELSE [cur EXCEPT ![s] = [rest |-> SubSeq(@.rest, j + 1, Len(@.rest)),
-                                        nfr |-> @.nfr + 1, active |-> TRUE]]
-    /\ UNCHANGED <<nsent, hdrOnly, rd, partial, sent, delivered>>
+    /\ cur' = Advance(s, j, final)
+    /\ UNCHANGED <<nsent, hdrOnly, rd, partial, ndeliv, bad>>
 
-\* the reader has a complete frame: reassembly (shared operator)
+\* the reader has a complete frame: reassembly (shared operator) and delivery
 Deliver(hdr, data) ==
-    LET units == [i \in 1..Len(data) |-> data[i][2]]
+    LET units == [i \in 1..Len(data) |-> IF data[i][1] = "D" THEN data[i][2]
+                                         ELSE <<NoSess, 0, 0, 0>>]   \* header bytes taken as payload
         r == RecvFrame(partial, [s |-> hdr.s, data |-> units, final |-> hdr.final], SeqCat, <<>>) IN
     /\ partial' = r.partial
-    /\ delivered' = IF r.out = <<>> THEN delivered
-                    ELSE [delivered EXCEPT ![hdr.s] = Append(@, r.out[1])]
+    /\ IF r.out = <<>> THEN UNCHANGED <<ndeliv, bad>>
+       ELSE /\ ndeliv' = [ndeliv EXCEPT ![hdr.s] = @ + 1]
+            /\ bad' = (bad \/ ~IsMessage(r.out[1], hdr.s, ndeliv[hdr.s] + 1)
+                           \/ ndeliv[hdr.s] + 1 > nsent[hdr.s])
+
+IdleReader == [phase |-> "hdr", need |-> HdrCells, got |-> <<>>, hdr |-> NoHdr]
 
 \* one Read call of the reader returns k cells (k <= what it asked for, k <= available)
 ReadSome(k) ==
@@ -144,28 +151,31 @@ ReadSome(k) ==
            done == need = 0 \/ (DevShortRead /\ rd.phase = "body") IN
         IF ~done
         THEN /\ rd' = [rd EXCEPT !.got = got, !.need = need]
-             /\ UNCHANGED <<partial, delivered>>
+             /\ UNCHANGED <<partial, ndeliv, bad>>
         ELSE IF rd.phase = "hdr"
         THEN LET c == got[1]
                  h == [s |-> c[2], size |-> c[3], final |-> c[4]] IN
              IF h.size = 0
-             THEN /\ Deliver(h, <<>>)
-                  /\ rd' = [phase |-> "hdr", need |-> HdrCells, got |-> <<>>, hdr |-> NoHdr]
+             THEN Deliver(h, <<>>) /\ rd' = IdleReader
              ELSE /\ rd' = [phase |-> "body", need |-> h.size, got |-> <<>>, hdr |-> h]
-                  /\ UNCHANGED <<partial, delivered>>
-        ELSE /\ Deliver(rd.hdr, got)
-             /\ rd' = [phase |-> "hdr", need |-> HdrCells, got |-> <<>>, hdr |-> NoHdr]
-    /\ UNCHANGED <<nsent, cur, hdrOnly, sent>>
+                  /\ UNCHANGED <<partial, ndeliv, bad>>
+        ELSE Deliver(rd.hdr, got) /\ rd' = IdleReader
+    /\ UNCHANGED <<nsent, cur, hdrOnly>>
+
+\* all messages written and read: stutter (so that TLC's deadlock check means
+\* "every other state can make progress")
+Terminated ==
+    /\ \A s \in Sessions : nsent[s] = MaxMsgs /\ ~cur[s].active
+    /\ wire = <<>> /\ hdrOnly = NoHdr
+    /\ UNCHANGED vars
 
 Next ==
     \/ \E s \in Sessions, n \in 0..MaxUnits : Start(s, n)
     \/ \E s \in Sessions, j \in 0..MaxUnits, f \in BOOLEAN : WriteFrame(s, j, f)
     \/ \E s \in Sessions : WritePayload(s)
-    \/ \E s \in Sessions, j \in 0..MaxUnits, f \in BOOLEAN : WriteHdrOther(s, j, f)
+    \/ \E s \in Sessions, j \in 0..MaxUnits, f \in BOOLEAN : WriteBetween(s, j, f)
     \/ \E k \in 1..MaxChunk : ReadSome(k)
-
-Fairness == WF_vars(\E k \in 1..MaxChunk : ReadSome(k))
-            /\ \A s \in Sessions : WF_vars(\E j \in 0..MaxUnits : WriteFrame(s, j, TRUE))
+    \/ Terminated
 
 Spec == Init /\ [][Next]_vars
 
@@ -175,16 +185,16 @@ Spec == Init /\ [][Next]_vars
 IsPrefix(a, b) == Len(a) <= Len(b) /\ SubSeq(b, 1, Len(a)) = a
 
 \* every session receives exactly the messages sent to it, complete and in order
-\* (what has been delivered is always a prefix of what was sent)
-InOrderDelivery == \A s \in Sessions : IsPrefix(delivered[s], sent[s])
+InOrderDelivery == ~bad /\ \A s \in Sessions : ndeliv[s] <= nsent[s]
 
-\* nothing of another session ever gets into a session's reassembly buffer, and the
-\* buffer is a prefix of the message being received
+\* nothing of another session (or another message) ever gets into a session's
+\* reassembly buffer, and the buffer is a prefix of the message being received
 PartialIsOwnPrefix ==
     \A s \in Sessions :
-        /\ \A i \in 1..Len(partial[s]) : partial[s][i][1] = s
-        /\ Len(delivered[s]) < Len(sent[s]) => IsPrefix(partial[s], sent[s][Len(delivered[s]) + 1])
-        /\ Len(delivered[s]) = Len(sent[s]) => partial[s] = <<>>
+        partial[s] # <<>> =>
+            LET u == partial[s][1] IN
+            /\ u[1] = s /\ u[2] = ndeliv[s] + 1 /\ u[2] <= nsent[s]
+            /\ IsPrefix(partial[s], Message(s, u[2], u[4]))
 
 \* the reader's view of the byte stream stays in step with the frames (it never
 \* takes payload for a header or vice versa)
@@ -195,9 +205,12 @@ ReaderInSync ==
 \* when everything has been written and read, everything has been delivered
 Quiescent == /\ \A s \in Sessions : nsent[s] = MaxMsgs /\ ~cur[s].active
              /\ wire = <<>> /\ hdrOnly = NoHdr
-AllDeliveredAtEnd == Quiescent => \A s \in Sessions : delivered[s] = sent[s]
+AllDeliveredAtEnd == Quiescent => \A s \in Sessions : ndeliv[s] = nsent[s] /\ partial[s] = <<>>
 
-\* liveness (with fairness): every started message is eventually delivered
-EventuallyDelivered == <>[](\A s \in Sessions : delivered[s] = sent[s] /\ nsent[s] = MaxMsgs)
-FairSpec == Spec /\ Fairness /\ \A s \in Sessions : WF_vars(\E n \in 0..MaxUnits : Start(s, n))
+\* liveness under fairness: all messages are eventually delivered
+Fairness == /\ WF_vars(\E k \in 1..MaxChunk : ReadSome(k))
+            /\ \A s \in Sessions : /\ WF_vars(\E j \in 0..MaxUnits : WriteFrame(s, j, TRUE))
+                                   /\ WF_vars(\E n \in 0..MaxUnits : Start(s, n))
+FairSpec == Spec /\ Fairness
+EventuallyDelivered == <>[](\A s \in Sessions : ndeliv[s] = MaxMsgs)
 =============================================================================
